@@ -8,7 +8,8 @@ RULE = ("a case is one generator state (std::mt19937 seed, optionally with presc
         "samplers are interleaved on one generator, or a rejection call that needed more than one trial, or a Poisson draw with mean > 500; distinct by case text")
 LEVEL_TEXT = ("Theorems (Coq): number of uniforms consumed by every sampler as a function of its control flow (equal streams give equal outputs and equal residual "
               "streams by the type of the model); Sample_Metropolis(_2D) returns exactly `sample` elements for every thinning >= 1, every burn-in and no 32-bit overflow, "
-              "every returned point lies in a bounded domain, the acceptance rule satisfies detailed balance; rejection sampling returns a point of the box that "
+              "every returned point lies in a bounded domain (the step: a candidate outside of the domain has acceptance probability exactly 0 for every density, also at a current point of "
+              "density 0, and is not taken for any accept deviate u >= 0, the deviate 0 included), the acceptance rule satisfies detailed balance; rejection sampling returns a point of the box that "
               "satisfies the acceptance rule y <= pdf(x); the Poisson sampler is Knuth's product rule for every lambda >= 0 (the exp(STEP) rescaling is transparent, with the "
               "p == 1 boundary stated); Sample_Uniform stays in [a,b]. NOT theorems: the distributional clauses (Kolmogorov-Smirnov, chi-square, moments) — they are "
               "tested on the implementation with fixed seeds at significance 1e-9 (S4); that std::mt19937/generate_canonical produce the stream handed to the model is "
@@ -22,6 +23,9 @@ TRUSTED = ["pure-Python MT19937 / generate_canonical in checks/C18.py (validated
 ASSUMPTIONS = ["distributional clauses are statistical tests on the implementation (fixed seeds, significance 1e-9), not theorems",
                "a canonical uniform <= 2^-55 (2u-1 rounds to -1) makes Sample_Gauss return mean - 10 sqrt(2) sigma (Inv_Erf(-1) = -10 since the repair; it used to exit); modelled, proved "
                "(C18_sample_gauss_at_zero) and reproduced with a crafted generator state",
+               "the acceptance rule at a current point of density exactly 0.0 (ratio NaN or inf, std::min(1.0, .) = 1.0: free walk to the support) is IEEE behaviour outside the real-number theorems: "
+               "it is covered by the correspondence and by S4 on prescribed generator streams (accept deviates 0.0, 2^-64, 1-2^-53; start points at the domain corners; densities that vanish on a "
+               "part of the domain) and by distributional tests whose chains start in the zero-density region; a density that evaluates to -0.0 there traps the chain (K-C18-1)",
                "thinning = 0 does not divide by zero in the current code (i_max = burn_in, so `i >= burn_in` is never true): it returns no samples; outside the quantifier"]
 ALPHA = 1e-9
 ZCRIT = 6.5     # two-sided normal tail 8e-11 <= 1e-9
@@ -772,7 +776,8 @@ def metro_steps(name, d2, us, k0, sigmas, burn, dom, e, pts):
         if cur != prev:
             if any(x != x for x in cur): continue
             a = amin(ratio(pdf(cur), fp))
-            if not (u < a) and not (abs(u - a) <= 1e-12 * abs(a)) :
+            if dom and any(cur[c] < dom[2 * c] or cur[c] > dom[2 * c + 1] for c in range(dim)): a = 0.0      # a candidate outside of the domain
+            if not (u < a) and not (a > 0 and abs(u - a) <= 1e-12 * a):
                 out.append((name + ":accept-rule", f"{name}: step {i} moved from {prev} to {cur} although the accept deviate {u!r} is not below min(1, pdf ratio) = {a!r}"))
                 break
             continue
@@ -791,11 +796,14 @@ def metro_steps(name, d2, us, k0, sigmas, burn, dom, e, pts):
         probe = [tuple(cand[c] + sg[c] * dl[c] for c in range(dim)) for sg in ([(0,), (-1,), (1,)] if dim == 1 else [(0, 0), (-1, -1), (-1, 1), (1, -1), (1, 1)])]
         fs = [pdf(q) for q in probe]
         if fp == 0.0:
-            # min(1, f/0): +inf or NaN, i.e. 1.0 for every candidate with f >= 0 or f NaN
+            # min(1, f/0): +inf or NaN, i.e. 1.0, for every candidate with f >= 0 or f NaN -- when the zero is +0.0.  A density that evaluates to -0.0
+            # (e.g. indicator * 2x at x < 0) gives f/(-0.0) = -inf for f > 0: the library never moves to a point of positive density (K-C18-1).
             if any(f < 0 for f in fs): continue
+            negz = math.copysign(1.0, fp) < 0 and all(f > 0 for f in fs)
+            if math.copysign(1.0, fp) < 0 and not negz and not all(f == 0.0 or f != f for f in fs): continue
             if u < 1.0:
-                out.append((name + ":accept-rule", f"{name}: step {i} stayed at {prev}, a point of zero density, although the candidate ~{tuple(cand)} lies inside the domain: "
-                            f"min(1, pdf(cand)/0) = 1 > accept deviate {u!r} (a chain that does not leave the zero-density region cannot reach the target law)"))
+                out.append((name + ":accept-rule" + (":negzero" if negz else ""), f"{name}: step {i} stayed at {prev}, a point of zero density ({fp!r}), although the candidate ~{tuple(cand)} lies inside "
+                            f"the domain: the acceptance probability there has to be 1 > accept deviate {u!r} (a chain that does not leave the zero-density region cannot reach the target law)"))
                 break
             continue
         if not all(f == f and math.isfinite(f) and f > 0 for f in fs) or not math.isfinite(fp): continue
